@@ -16,6 +16,15 @@ CLAIMED = {
  'C01': ('PBT: differential against a reference PEG interpreter (exhaustive shapes x all short inputs + hypothesis grammars)',
          'Generated-input search: every depth<=1 core expression in 13 exposing parent contexts, a seeded stride through all depth-2 shapes and hypothesis multi-rule grammars (text+bytes) are compared on all short inputs with an independent naive PEG interpreter; bounds stated in evidence. Finds wrong static flags / missing restores; proves nothing beyond the explored bounds.',
          'Trusts vlib/peg.py reference semantics (DESIGN Appendix A, self-tested on hand cases); alphabet {a,b,Z}, inputs <= 5 (9 sampled), depth <= 5.'),
+ 'C14': ('PBT: hypothesis recursive result trees (shared nodes, containers, same-field classes, parsed trees with metadata); independent structural equality oracle, snapshots, round-trips',
+         'Generated-input search over triples of result trees: ==/!= against an independent structural predicate (incl. classes with identical field names, dicts in different insertion order), symmetry, transitivity, hash consistency (also after _replace), _asdict order/identity, _replace (new object, only given fields, metadata kept, original untouched), deepcopy (equal, no shared mutable node, same metadata), pickle round trip for a named grammar, eval(repr).',
+         'NaN excluded; fields not mutated after hashing; trees <= ~16 leaves.'),
+ 'C15': ('PBT: hypothesis recursive trees with repeated identical leaves and shared nodes + 10^4/10^5-deep chains; reference visit/traverse generators compared event by event',
+         'Generated-input search: visit order/once and every traverse event (identity of parent and child, field, finished flag, bracket nesting) compared with independent iterative reference generators on constructed and parsed trees; deep chains of objects, lists, dict/tuple mixes and Infix nodes must not hit the recursion limit.',
+         'Reference order taken from the statement (depth-first, left to right, shared nodes expanded once).'),
+ 'C16': ('PBT: hypothesis trees x callback lists; independent bottom-up rewrite producing result, call log and expected metadata',
+         'Generated-input search: for trees with a unique position marker on every node (or real spans from parse) and 0-3 callbacks (identity, log, replace class by other class / string / list, wrap) the real call log, result, per-node metadata, tuple/dict pass-through and the untouched input are compared with an independent bottom-up rewrite.',
+         'Callbacks return their argument or fresh values (returning an existing descendant is ambiguous and excluded).'),
 }
 
 checks = []
